@@ -329,18 +329,31 @@ def check_c27(tier, seed):
                   'recon polled or not; oracle: every program that completes yields byte-identical packets and recon; a program that legitimately blocks (never drains) is classified did-not-complete, not a violation; distinct = distinct cases')
     ck.ev.components = core.COMPONENTS_ENC; ck.ev.assumptions = list(ENC_ASSUME)
     core.build('plain'); rng = ck.rng
-    bases = [({'logical_processors': 2}, {'kind': 'mix', 'seed': 3}, 12, (64, 64)), ({'logical_processors': 4, 'hierarchical_levels': 3, 'enc_mode': 7}, {'kind': 'moving', 'seed': 5}, 20, (64, 64))]
+    bases = [({'logical_processors': 2}, {'kind': 'mix', 'seed': 3}, 12, (64, 64)), ({'logical_processors': 4, 'hierarchical_levels': 3, 'enc_mode': 7}, {'kind': 'moving', 'seed': 5}, 20, (64, 64)),
+             # decisions that look at pictures *beyond* the current mini-GOP (temporal filtering windows, look-ahead, scene-change delay) can see more or fewer of them
+             # depending on how far ahead of the encoder the application is: short mini-GOPs (few past pictures), slow presets (wide windows), many analysis threads
+             ({'logical_processors': 8, 'hierarchical_levels': 2, 'enc_mode': 4, 'recon_enabled': 0, '_wide': 1}, {'kind': 'pan', 'seed': 7}, 40, (64, 64)),
+             ({'logical_processors': 16, 'hierarchical_levels': 1, 'enc_mode': 4, 'recon_enabled': 0, '_wide': 1}, {'kind': 'pan', 'seed': 7}, 40, (64, 64)),
+             ({'logical_processors': 4, 'hierarchical_levels': 0, 'enc_mode': 5, 'recon_enabled': 0}, {'kind': 'moving', 'seed': 11}, 18, (64, 64))]
     for i in range(5 if tier == 'quick' else 20):
         cfgo = gen.swarm_cfg(rng, fields=['enc_mode', 'hierarchical_levels', 'look_ahead_distance', 'enable_tpl_la', 'pred_structure', 'intra_period_length'], nmax=3); cfgo['logical_processors'] = rng.choice([1, 2, 4])
         bases.append((cfgo, gen.content(rng, kinds=['mix', 'moving']), rng.randint(4, 30), (64, 64)))
     fams = []
     for (cfgo, cont, n, wh) in bases:
-        base = mk(ck, cfgo, cont, n, wh, g={'pacing': 'each'}, oracles={'decode': 0, 'parse': 0, 'order': 1}); fam = [base]
+        cfgo = dict(cfgo); wide = cfgo.pop('_wide', 0)
+        base = mk(ck, cfgo, cont, n, wh, g={'pacing': 'each'}, machine={'cores': max(2, cfgo.get('logical_processors', 4)), 'sockets': 1}, oracles={'decode': 0, 'parse': 0, 'order': 1}); fam = [base]
+        for _ in range(6 if wide else 0):   # more relative speeds for the configurations with wide temporal windows
+            cw = copy.deepcopy(base); cw['sim'] = gen.schedule(rng, horizon=600 * n, nthreads=30 + 4 * cfgo.get('logical_processors', 4), allow_buggify=False); fam.append(cw)
         for pacing, extra in [('every_k', {'k': rng.randint(2, 7)}), ('random', {'pseed': rng.randint(1, 999)}), ('random', {'pseed': rng.randint(1, 999), 'stall': rng.randint(1, 300)}), ('none', {}), ('each', {'stall': rng.randint(50, 2000)})][:4 if tier == 'quick' else 5]:
             c = gen.regen(base, pacing=pacing, **extra); c['sim'] = gen.schedule(rng, allow_buggify=False); fam.append(c)
             if pacing in ('every_k', 'random'):
                 # a slow application: between any two of its steps (also in the middle of an API call) the library runs until it has nothing left to do
                 c2 = copy.deepcopy(c); c2['sim'] = {'policy': 'starve', 'starve_tid': 0, 'seed': rng.randint(1, 10**6)}; fam.append(c2); ck.ev.fault('slow_application')
+        # the same drain-after-every-send program under the two extreme relative speeds: a slow application (the library finishes everything it can between two
+        # application steps) and a fast one (every library thread is starved: the application runs whenever it can, so pictures pile up in front of the encoder)
+        c3 = copy.deepcopy(base); c3['sim'] = {'policy': 'starve', 'starve_tid': 0, 'seed': rng.randint(1, 10**6)}; fam.append(c3); ck.ev.fault('slow_application')
+        c4 = copy.deepcopy(base); c4['sim'] = {'policy': 'starve', 'starve_mod': 1, 'starve_rem': 0, 'seed': rng.randint(1, 10**6)}; fam.append(c4); ck.ev.fault('fast_application')
+        c5 = gen.regen(base, pacing='every_k', k=rng.choice([4, 8])); c5['sim'] = {'policy': 'starve', 'starve_mod': 1, 'starve_rem': 0, 'seed': rng.randint(1, 10**6)}; fam.append(c5); ck.ev.fault('fast_application')
         fams.append(fam)
     flat = [c for fam in fams for c in fam]
     rs = pmap(lambda c: run_case(c, 'plain'), flat, variant='plain'); i = 0
